@@ -774,7 +774,7 @@ func bsamples() []*Variant {
 		VariantFromDouble(2.25), VariantFromDouble(nan), VariantFromDouble(math.Inf(1)), VariantFromDouble(0), VariantFromDouble(-3),
 		VariantFromString("a"), VariantFromString("b"), VariantFromBoolean(true), VariantFromBoolean(false),
 		VariantFromDateTime(time.Unix(100, 0)), VariantFromDateTime(time.Unix(200, 0)), VariantFromTimeSpan(time.Second), VariantFromTimeSpan(-time.Millisecond),
-		VariantFromArray([]*Variant{VariantFromInteger(1), VariantFromInteger(2)}), VariantFromArray(nil)}
+		VariantFromArray([]*Variant{VariantFromInteger(1), VariantFromInteger(2)}), VariantFromArray([]*Variant{VariantFromDouble(2.25), VariantFromString("3"), VariantFromLong(5)}), VariantFromArray(nil)}
 }
 
 func bcall(t *testing.T, what string, f func() (*Variant, error)) (r *Variant, err error, ok bool) {
@@ -841,6 +841,21 @@ func TestVerifReplay(t *testing.T) {
 						if has && (r.Type() != Boolean || r.AsBoolean() != want) { t.Errorf("manager %d: %v %s %v = %v, host arithmetic gives %v", mi, x, o.name, y, r, want) }
 					}
 				}
+				// membership: the searched value is compared with each element as Equal(value, element) - the element is
+				// converted to the type of the searched value (first-operand rule), never the other way round
+				if a.Type() == Array && b.Type() != Null {
+					want, wantErr := false, false
+					for _, el := range a.AsArray() {
+						eq, e := ops.Equal(b, el)
+						if e != nil { wantErr = true; break }
+						if eq.Type() == Boolean && eq.AsBoolean() { want = true; break }
+					}
+					r, e := ops.In(a, b)
+					switch {
+					case wantErr != (e != nil): t.Errorf("manager %d: %v IN %v: error %v, comparing the value with each element gives error=%v", mi, b, a, e, wantErr)
+					case e == nil && (r.Type() != Boolean || r.AsBoolean() != want): t.Errorf("manager %d: %v IN %v = %v, comparing the value with each element gives %v", mi, b, a, r, want)
+					}
+				}
 				// comparison consistency for equal types
 				if a.Type() == b.Type() && a.Type() != Null {
 					bv := func(n string) (bool, bool) { r, ok := res[n]; if !ok || r.Type() != Boolean { return false, false }; return r.AsBoolean(), true }
@@ -856,7 +871,7 @@ func TestVerifReplay(t *testing.T) {
 	}
 }
 '''
-        return 'variants', src, 'all operators x all pairs of 27 sample values (every variant type; 0, negatives, NaN, +Inf) x both managers'
+        return 'variants', src, 'all operators x all pairs of 28 sample values (every variant type; 0, negatives, NaN, +Inf, mixed-type arrays) x both managers'
 
     def operand(self, vals, v):
         t = vals.get(v + '_t', 1)
